@@ -138,6 +138,15 @@ class Scheduler(callbacks.Plugin):
     def die(self):
         self._flush()
         world.flushers.remove(self._flush)
+        # Unschedule our events: their functions are bound to this instance.
+        # They stay in the pickle, so the next instance schedules them again.
+        for (name, event) in self.events.items():
+            if event['type'] == 'single':
+                name = int(name)
+            try:
+                schedule.removeEvent(name)
+            except KeyError:
+                pass
         self.__parent.die()
 
     def _isIgnored(self, msg):
